@@ -333,6 +333,19 @@ def order_facts(conds, before=None):
                 out.append((a, b, True, c) if o else (b, a, False, c))
             else:
                 out.append((a, b, False, c) if o else (b, a, True, c))
+        elif t[0] == "cmp" and t[1] == "eq" and isinstance(o, bool):
+            # x == 0 decided false on an unsigned value: 1 <= x  (weights, amounts and counts are unsigned here)
+            for a, b in ((t[2], t[3]), (t[3], t[2])):
+                if b == ("lit", 0) and o is False:
+                    out.append((("lit", 1), a, False, c))
+                elif b[0] == "lit" and isinstance(b[1], int) and not isinstance(b[1], bool) and o is True:
+                    out.append((b, a, False, c))
+                    out.append((a, b, False, c))
+        elif isinstance(o, tuple) and o and o[0] == "notin" and 0 in o[1]:
+            out.append((("lit", 1), t, False, c))        # `match x { 0 => .., n => .. }` took the other arm
+        elif isinstance(o, tuple) and o and o[0] == "=":
+            out.append((("lit", o[1]), t, False, c))
+            out.append((t, ("lit", o[1]), False, c))
     return out
 
 
